@@ -140,7 +140,7 @@ Definition exec (c0 : card) (cmd arg : N) : card :=
     else c0
   else if (cmd =? 12) && (match c_phase c0 with PWaitTok true _ => true | _ => false end) then
     (* STOP_TRANSMISSION also aborts a multiple-block write (after a rejected block) *)
-    set_out c (FF (t_ncr t k) ++ [r1 c 0] ++ BUSY (t_busy_c t k)) PIdle
+    set_out c (127 :: FF (t_ncr t k) ++ [r1 c 0] ++ BUSY (t_busy_c t k)) PIdle
   else if cmd =? 8 then
     match k_kind c with
     | V1SC => illegal
